@@ -380,7 +380,16 @@ class Evaluator:
         if isinstance(e, ast.List):
             return [self.expr(x, env) for x in e.elts]
         if isinstance(e, ast.Dict):
-            return {self.expr(k, env): self.expr(v, env) for k, v in zip(e.keys, e.values)}
+            out_d = {}
+            for k, v in zip(e.keys, e.values):
+                if k is None:                         # {**other}
+                    other = self.expr(v, env)
+                    if not isinstance(other, dict):
+                        raise Unsupported("** of a non-dict in a dict display")
+                    out_d.update(other)
+                else:
+                    out_d[self.expr(k, env)] = self.expr(v, env)
+            return out_d
         if isinstance(e, ast.BoolOp):
             if isinstance(e.op, ast.And):
                 v = True
